@@ -547,6 +547,9 @@ func (g *Gen) EntTx(o *lab.Obs, hostilePct int) *TxPlan {
 			if len(o.Whitelist) > 0 && r.Chance(80) {
 				if a, ok := g.acctByAddr(o.Whitelist[r.Intn(len(o.Whitelist))]); ok {
 					target = a
+					if r.Chance(30) { // a whitelisted account tries to take itself off the list
+						s = a
+					}
 				}
 			}
 		}
